@@ -2,7 +2,8 @@
 (* Binding of Region.tla's winding definitions to real regions: the search graph of every region the
    classifier obtained (edges <<source, target, multiplier>>) is recorded together with what
    LinkedUnitCollection.get_connected_directions() answered.
-     ConformsWinding  - the code's per-axis answer equals the directions with non-zero winding
+     ConformsWinding  - the code flags as many directions as the winding lattice has rank (after fix: one per
+                        independent column of the wrap-around vectors), each with a non-zero winding component
      EdgesWellFormed  - multipliers are non-zero {-1,0,1} vectors
      RankIsDimensionality - (slabs / monolayers of C18 only) the rank of the winding lattice is 2 *)
 EXTENDS Integers, Sequences, FiniteSets, TLC, Json, IOUtils
@@ -23,7 +24,8 @@ RankOf(W) == IF W = {} THEN 0
 EdgesWellFormed(E) == \A x \in E : x[3] # Zero3 /\ \A k \in 1..3 : x[3][k] \in {-1, 0, 1}
 VerdictW(e, W, E) ==
   IF ~EdgesWellFormed(E) THEN "DRIFT-EdgesWellFormed"
-  ELSE IF {k \in 1..3 : e.code_dirs[k]} # WindDirsOf(W) THEN "DRIFT-ConformsWinding"
+  ELSE IF ~({k \in 1..3 : e.code_dirs[k]} \subseteq WindDirsOf(W)) \/ Cardinality({k \in 1..3 : e.code_dirs[k]}) # RankOf(W)
+       THEN "DRIFT-ConformsWinding"
   ELSE IF e.expect_rank # -1 /\ RankOf(W) # e.expect_rank THEN "INFO-RankIsDimensionality"
   ELSE "ok"
 Verdict(e) == Only({ Only({VerdictW(e, W, E) : W \in {WindVecsOf(E)}}) : E \in {Edges(e)} })
